@@ -44,6 +44,22 @@ Proof. exact recovery_v3. Qed.
 Print Assumptions C08_recovery_v2.
 Print Assumptions C08_recovery_v3.
 
+(* the non-blocking reads LAN.send performs before writing the request and after the response never raise, whatever waits in
+   the receive queue (late handshake replies, error packets, data under an old key): such packets are skipped, so on a live
+   connection nothing can keep the request from being transmitted (fix F10) *)
+Theorem C08_sporadic_reads_never_raise : forall v fuel acc, keeps (hc v) (read_available fuel acc) (fun _ => False).
+Proof. exact read_available_never_raises. Qed.
+Print Assumptions C08_sporadic_reads_never_raise.
+
+(* the F10 history in the model: two handshake replies arrive after their read timeouts and wait in the queue; both following
+   exchanges with the promptly answering device succeed *)
+Example C08_late_handshake_replies :
+  fst (run_ops [OAuth (Some true) 3; OTick 43201000; ODevSend 82; OTick 7001; ODevSend 148; ODevSend 83]
+               (world_init [ConnOk; ConnOk] [[(0, RHsOk)]; [(4501, RHsOk)]; [(2001, RHsOk)]; [(0, RHsOk)]]
+                           [[(0, RFrame 62)]; [(0, RFrame 75)]; [(0, RFrame 48)]; [(0, RFrame 49)]]))
+  = [OutUnit; OutUnit; OutFrames [62]; OutUnit; OutFrames [75]; OutFrames [48]].
+Proof. vm_compute. reflexivity. Qed.
+
 Example C08_nonvacuous :
   fst (run_ops [OSend 5 3; ODevSend 6; ODevSend 7]
                (world_init [ConnOk; ConnRefused; ConnOk] [] [[]; []; []; [(10, RFrame 9)]]))
